@@ -8,7 +8,9 @@ import e2e_props
 import e2e_c11
 
 PROP_MODULES = ["QuicProofs.Props.C11Amplification"]
-BRIDGES = ["QuicProofs.Bridge.Amplification"]
+# the close sender charges every copy of the close packet to the path (`path.on_bytes_transmitted(len)` in write_payload):
+# "counting every packet type including ... connection-close packets"; its shape is pinned by the C12 extractor / bridge
+BRIDGES = ["QuicProofs.Bridge.Amplification", "QuicProofs.Bridge.CloseSender"]
 
 
 def fam_c11_handshake(rng, i):
@@ -118,7 +120,7 @@ def run(ctx):
         "and by the wire-level oracle T only; which packets a connection chooses to build is not modelled",
         "tie T samples real client+server runs on the deterministic IO provider with an adversarial network; it validates the model/oracles, it is not the proof",
     ]
-    step_extract(ctx, ["amplification"])
+    step_extract(ctx, ["amplification", "close_sender"])
     lean_ok = step_lean(ctx, PROP_MODULES, BRIDGES)
     if not lean_ok:
         ctx.escalated = True     # a proof obligation / bridge broke: search deeper for a concrete failing input
